@@ -2,9 +2,18 @@
 
 Leg B: the real `Density.to_file` / `Density.from_file` of the repo under test are run on generated
 volumes; the bytes they put on disk and everything they read back are compared with the Lean model
-(Model/C08.lean: EM byte layout, MRC header fields + payload, row-wise sub-box reader with the
-full-box shortcut, slice validation, gzip sniffing, format dispatch), and every clause of the
-property is evaluated directly on what the real code returned."""
+(Model/C08.lean: EM byte layout incl. the dtype the writer chooses, MRC header fields + payload, row-wise
+sub-box reader with the full-box shortcut for every item size and every MAPC/MAPR/MAPS order, slice
+validation, gzip sniffing, format dispatch), and every clause of the property is evaluated directly on what
+the real code returned.
+
+Streams (all from `ctx.rng`, every failing input is self-contained and replayable):
+  check_case     one volume written by `to_file` (dtype x byte order x memory layout x form of origin / sampling rate x
+                 call form x format x gzip), optionally re-compressed / gunzipped / renamed, read in memory, memory-mapped
+                 and by sub-boxes (python / numpy integer bounds)
+  check_foreign  MRC files written by mrcfile itself: data modes, big-endian, extended header, start indices, axis orders
+  session_*      sequences in one process: one object -> many files, two files named alike, read -> write -> read chains
+  big_sparse     files beyond 2 and 4 GiB (sparse), _wide_cases: extents beyond one and two bytes, volumes of 1-10 MB"""
 import ast
 import glob
 import gzip as _gzip
@@ -18,25 +27,43 @@ import numpy as np
 from .. import env
 
 ID = "C08"
-RULE = ("generated 3-D volumes with pairwise distinct extents (1..7 quick / ..12 thorough, a few long axes), float32 "
-        "payloads from random finite bit patterns (incl. +-0, denormals, max) or random normals, held as float32/float64 "
-        "in C / Fortran / strided layout; origins (zero, grid multiples, arbitrary, negative, large), per-axis rates; "
-        "mrc/map/em/h5 x gzip x memmap; all sub-boxes of tiny volumes exhaustively, random boxes (incl. full, single "
-        "voxel, empty) otherwise; a malformed-box stream (out of range, negative, reversed, wrong rank). "
+RULE = ("generated 3-D volumes with pairwise distinct extents (1..7 quick / ..12 thorough, a few long axes, axes crossing the "
+        "256 and 65536 boundaries, volumes of 1-10 MB, sparse files beyond 2 GiB), payloads from random finite bit patterns "
+        "(incl. +-0, denormals, max), normals, scaled/offset, constant and zero volumes, held as float32/float64/float16/"
+        "(u)int8/16/32/int64/bool in native or big-endian byte order and in C / Fortran / strided / permuted / reversed / offset "
+        "/ read-only / memory-mapped layout; origins (zero, grid multiples, arbitrary, negative, large, small), per-axis rates "
+        "(0.01..2000), both handed over as tuple / list / float64 / float32 / int arrays / scalars / left out / assigned as "
+        "attributes; mrc/map/em/h5 x gzip x memmap; files re-compressed by another gzip (levels, FNAME, two members) or "
+        "gunzipped before reading; MRC files written by mrcfile itself (modes int8/int16/uint16/float16/float32, big-endian, "
+        "extended headers, all six MAPC/MAPR/MAPS orders); all sub-boxes of tiny volumes exhaustively, random boxes (incl. "
+        "full, single voxel, empty, full along every subset of axes) otherwise, bounds as python or numpy integers, each with "
+        "or without use_memmap; a malformed-box stream (out of range, negative, reversed, wrong rank); sessions in one "
+        "process: one object written to every format and again after being changed, two files that differ in name only by "
+        "length / case / directory read alternately, chains read -> write (other format) -> read, the same path rewritten. "
         "distinct = (format, gzip, shape, dtype, layout, box/memmap) tuples whose volume has > 1 voxel and whose box is "
         "non-empty; single-voxel volumes and empty boxes are compared but not counted")
 ASSUMPTIONS = [
     "gzip (python stdlib) satisfies the GzipContract of the model: magic number + decompress(compress x) = x (checked on every compressed file)",
     "mrcfile / h5py internals are exercised, not modelled: MRC is tied at the level of header words at fixed offsets + payload bytes, HDF5 only through what is read back",
-    "astype(float32) of float32-representable float64 values is exact (numpy)",
-    "int(sampling_rate*1000) (float multiply + truncation) enters the EM model as the integer it produces",
+    "astype(float32) of float32-representable values of any dtype is exact (numpy); generated integers stay within +-2^24",
+    "int(sampling_rate*1000) (float multiply + truncation, in the dtype the rate was given in) enters the EM model as the integer it produces",
     "origin / sampling are compared with 1 ulp(float32) (MRC origin), 2^-22 relative (MRC sampling: two float roundings), exactly (HDF5), 0.001 A (EM, isotropic only)",
+    "MRC files with a non-standard MAPC/MAPR/MAPS are only required to be self-consistent (sub-box = slice of the full read, memmap = in-memory); which physical axis ends up where is not part of the property",
 ]
 TRUSTED = ["C08: gzip, mrcfile, h5py, numpy casts; float32 rounding of header fields is absorbed by the stated tolerances"]
 
 EXTS = ("mrc", "map", "em", "h5")
-_CODE = {"float32": (5, 4), "float64": (6, 8), "int16": (2, 2), "int32": (3, 4)}
-_UINT = {4: np.uint32, 8: np.uint64, 2: np.uint16}
+_UINT = {1: np.uint8, 2: np.uint16, 4: np.uint32, 8: np.uint64}
+# dtype key -> numpy dtype handed to Density ("-be": non-native byte order)
+_DTYPES = {"float32": "<f4", "float64": "<f8", "float16": "<f2", "int8": "i1", "int16": "<i2", "int32": "<i4", "int64": "<i8",
+           "uint8": "u1", "uint16": "<u2", "uint32": "<u4", "bool": "?", "float32-be": ">f4", "float64-be": ">f8", "int16-be": ">i2"}
+_DT_CHOICES = ["float32"] * 9 + ["float64"] * 2 + [k for k in _DTYPES if k not in ("float32", "float64")]
+_LAYOUTS = ["C"] * 4 + ["F", "strided", "permuted", "reversed", "offset", "readonly", "memmap"]
+_OFORMS = ["tuple"] * 5 + ["list", "f8", "f4", "i8", "scalar", "none", "attr"]
+_RFORMS = ["tuple"] * 5 + ["list", "f8", "f4", "i8", "scalar", "scalar-int", "none", "attr"]
+_TRANSPORTS = [None] * 6 + ["regzip-1", "regzip-fname", "regzip-multi", "gunzipped", "gz-renamed"]
+_BOXFORMS = ["int"] * 3 + ["np64", "np32", "npi", "step1"]
+_KNOWN = ("mrc:subset:nx-gzip-magic", "mrc:origin:allclose0-with-nonzero-start")
 
 
 # ------------------------------------------------------------------------------------------------
@@ -53,33 +80,71 @@ def _finite_bits(rng, n):
     return b
 
 
-def gen_case(rng, ctx=None, wide=False, fmt=None, gz=None):
+def _gen_bits(rng, dtype, n):
+    """(bit patterns of n voxels in the native form of `dtype` as uint64, kind).  float64 volumes are described by
+    float32 patterns (their values are float32 values); integers stay within +-2^24 so that the float32 image is exact."""
+    base = dtype.replace("-be", "")
+    if base in ("float32", "float64"):
+        r = rng.random()
+        if base == "float32" and r < 0.35:
+            return _finite_bits(rng, n).astype(np.uint64), "bitpatterns"
+        if r < 0.43:
+            v, kind = np.full(n, rng.standard_normal() * 10.0 ** int(rng.integers(-9, 4))), "constant"
+        elif r < 0.48:
+            v, kind = np.zeros(n), "zeros"
+        elif r < 0.65:
+            sc = 10.0 ** int(rng.integers(-9, 4))
+            v, kind = (rng.standard_normal(n) + float(rng.choice([0.0, 5.0, -300.0, 1e4]))) * sc, "scaled-offset"
+        else:
+            v, kind = rng.standard_normal(n), "normal"
+        return v.astype(np.float32).view(np.uint32).astype(np.uint64), kind
+    if base == "float16":
+        b = rng.integers(0, 2 ** 16, size=n, dtype=np.uint64)
+        bad = (b >> 10) & 0x1F == 0x1F
+        b[bad] &= np.uint64(0xBFFF)
+        return b, "float16-patterns"
+    if base == "bool":
+        return rng.integers(0, 2, size=n, dtype=np.uint64), "bool"
+    w = np.dtype(base).itemsize
+    if w <= 2:
+        return rng.integers(0, 2 ** (8 * w), size=n, dtype=np.uint64), "int-full-range"
+    lo = 0 if base.startswith("u") else -2 ** 24
+    v = rng.integers(lo, 2 ** 24 + 1, size=n)
+    return v.astype(base).view(_UINT[w]).astype(np.uint64), "int-24bit"
+
+
+def gen_case(rng, ctx=None, wide=False, fmt=None, gz=None, plain=False):
+    """`plain`: the pre-widening distribution (float32/float64, C/F/strided, tuples) used where the volume is replaced"""
     hi = 12 if (wide or (ctx is not None and ctx.thorough)) else 7
     r = rng.random()
-    if r < 0.75:
+    if r < 0.68:
         shape = [int(x) for x in rng.choice(np.arange(1, hi + 1), size=3, replace=False)]
-    elif r < 0.9:
+    elif r < 0.82:
         shape = [int(x) for x in rng.integers(1, hi + 1, size=3)]
-    else:
+    elif r < 0.92:
         shape = [int(x) for x in rng.choice(np.arange(1, 5), size=3, replace=False)]
         shape[int(rng.integers(0, 3))] = int(rng.integers(20, 60 if not wide else 200))
+    else:   # an extent that needs a second byte in the header / in offsets
+        shape = [int(x) for x in rng.choice(np.arange(1, 4), size=3, replace=False)]
+        shape[int(rng.integers(0, 3))] = int(rng.integers(250, 300))
     n = int(np.prod(shape))
-    dtype = str(rng.choice(["float32", "float32", "float32", "float64"]))
-    if rng.random() < 0.4 and dtype == "float32":
-        bits, vk = _finite_bits(rng, n), "bitpatterns"
-    else:
-        bits, vk = rng.standard_normal(n).astype(np.float32).view(np.uint32), "normal"
-    layout = str(rng.choice(["C", "C", "C", "F", "strided"]))
-    rk = str(rng.choice(["ones", "iso", "aniso", "aniso", "dyadic"]))
+    dtype = str(rng.choice(["float32", "float32", "float32", "float64"] if plain else _DT_CHOICES))
+    bits, vk = _gen_bits(rng, dtype, n)
+    layout = str(rng.choice(["C", "C", "C", "F", "strided"] if plain else _LAYOUTS))
+    rk = str(rng.choice(["ones", "iso", "aniso", "aniso", "dyadic", "small", "big"]))
     if rk == "ones":
         rate = [1.0, 1.0, 1.0]
     elif rk == "iso":
         rate = [float(np.round(rng.uniform(0.5, 20.0), int(rng.integers(1, 4))))] * 3
     elif rk == "dyadic":
         rate = [float(x) for x in rng.choice([0.5, 1.25, 2.0, 4.0, 0.75], size=3)]
+    elif rk == "small":
+        rate = [float(x) for x in rng.uniform(0.01, 0.3, size=3)]
+    elif rk == "big":
+        rate = [float(x) for x in rng.uniform(25.0, 2000.0, size=3)]
     else:
         rate = [float(x) for x in rng.uniform(0.3, 25.0, size=3)]
-    ok_ = str(rng.choice(["zero", "grid", "grid-half", "arbitrary", "negative", "large", "mixed-zero"]))
+    ok_ = str(rng.choice(["zero", "grid", "grid-half", "arbitrary", "negative", "large", "mixed-zero", "small"]))
     if ok_ == "zero":
         origin = [0.0, 0.0, 0.0]
     elif ok_ == "grid":
@@ -94,30 +159,143 @@ def gen_case(rng, ctx=None, wide=False, fmt=None, gz=None):
         origin = [-float(x) for x in rng.uniform(0.1, 500, size=3)]
     elif ok_ == "large":
         origin = [float(x) for x in rng.uniform(-1, 1, size=3) * 10.0 ** rng.integers(3, 7)]
+    elif ok_ == "small":
+        origin = [float(x) for x in rng.uniform(-1, 1, size=3) * 10.0 ** (-float(rng.integers(1, 7)))]
     else:
         origin = [0.0, float(rng.uniform(-40, 40)), 0.0]
     fmt = fmt or str(rng.choice(EXTS))
     gz = bool(rng.integers(0, 2)) if gz is None else gz
-    return {"shape": shape, "bits": bits.tolist(), "dtype": dtype, "layout": layout, "origin": origin, "rate": rate,
+    case = {"shape": shape, "bits": bits.tolist(), "dtype": dtype, "layout": layout, "origin": origin, "rate": rate,
             "fmt": fmt, "gzip": gz, "kinds": {"values": vk, "rate": rk, "origin": ok_}}
+    if plain:
+        return case
+    # the form in which origin and sampling rate reach the object: the values are made representable in that form
+    of, rf = str(rng.choice(_OFORMS)), str(rng.choice(_RFORMS))
+    if of == "none":
+        origin = [0.0, 0.0, 0.0]
+    elif of == "scalar":
+        origin = [origin[0]] * 3
+    elif of == "f4":
+        origin = [float(np.float32(x)) for x in origin]
+    elif of == "i8":
+        origin = [float(np.round(x)) for x in origin]
+    if rf == "none":
+        rate = [1.0, 1.0, 1.0]
+    elif rf == "scalar":
+        rate = [rate[0]] * 3
+    elif rf == "scalar-int":
+        rate = [float(max(1, round(rate[0])))] * 3
+    elif rf == "f4":
+        rate = [float(np.float32(x)) for x in rate]
+    elif rf == "i8":
+        rate = [float(max(1, round(x))) for x in rate]
+    tr = rng.choice(np.array(_TRANSPORTS, dtype=object))
+    if fmt == "h5" or (tr in ("gunzipped", "gz-renamed") and not gz):
+        tr = None
+    case.update(origin=origin, rate=rate, oform=of, rform=rf, transport=tr,
+                call=str(rng.choice(["kw", "kw", "pos", "default", "gzname"])))
+    return case
+
+
+_incounter = [0]
+
+
+def _layout(a, lay):
+    """the same values in the requested memory layout"""
+    if lay == "F":
+        return np.asfortranarray(a)
+    if lay == "strided":
+        big = np.zeros(tuple(2 * s + 1 for s in a.shape), dtype=a.dtype)
+        big[1::2, 1::2, 1::2] = a
+        return big[1::2, 1::2, 1::2]
+    if lay == "permuted":          # neither C- nor F-contiguous
+        return np.ascontiguousarray(a.transpose(1, 2, 0)).transpose(2, 0, 1)
+    if lay == "reversed":          # negative strides
+        return np.ascontiguousarray(a[::-1, ::-1, ::-1])[::-1, ::-1, ::-1]
+    if lay == "offset":            # window of a larger buffer
+        big = np.zeros(tuple(s + 3 for s in a.shape), dtype=a.dtype)
+        big[1:-2, 2:-1, 1:-2] = a
+        return big[1:-2, 2:-1, 1:-2]
+    if lay == "readonly":
+        a = np.ascontiguousarray(a).copy()
+        a.flags.writeable = False
+        return a
+    if lay == "memmap":
+        _incounter[0] += 1
+        d = os.path.join(env.scratch(), "c08", "in")
+        os.makedirs(d, exist_ok=True)
+        p = os.path.join(d, f"in{_incounter[0]}.raw")
+        np.ascontiguousarray(a).tofile(p)
+        return np.memmap(p, dtype=a.dtype, mode="r", shape=a.shape)
+    return np.ascontiguousarray(a)
 
 
 def _volume(case):
-    """the float32 reference volume and the array handed to Density (dtype / memory layout as requested)"""
+    """the float32 reference volume and the array handed to Density (dtype / byte order / memory layout as requested)"""
     shape = tuple(case["shape"])
+    dt = case.get("dtype", "float32")
+    base = dt.replace("-be", "")
+    n = int(np.prod(shape))
     if "bits" in case:
-        ref = np.array(case["bits"], dtype=np.uint32).view(np.float32).reshape(shape)
-    else:  # large deterministic volumes are described, not listed
-        ref = np.arange(int(np.prod(shape)), dtype=np.float32).reshape(shape)
-    a = ref.astype(case.get("dtype", "float32"))
-    lay = case.get("layout", "C")
-    if lay == "F":
-        a = np.asfortranarray(a)
-    elif lay == "strided":
-        big = np.zeros(tuple(2 * s + 1 for s in shape), dtype=a.dtype)
-        big[1::2, 1::2, 1::2] = a
-        a = big[1::2, 1::2, 1::2]
-    return ref, a
+        bits = np.array(case["bits"], dtype=np.uint64)
+    elif "valseed" in case:   # large volumes are described, not listed
+        bits = _gen_bits(np.random.default_rng(case["valseed"]), dt, n)[0]
+    else:
+        bits = np.arange(n, dtype=np.float32).view(np.uint32).astype(np.uint64)
+    if base in ("float32", "float64"):
+        a = bits.astype(np.uint32).view(np.float32).astype(base)
+    elif base == "bool":
+        a = bits.astype(np.uint8).astype(bool)
+    else:
+        a = bits.astype(_UINT[np.dtype(base).itemsize]).view(np.dtype(base))
+    a = a.reshape(shape)
+    ref = a.astype(np.float32)
+    if dt.endswith("-be"):
+        a = a.astype(np.dtype(_DTYPES[dt]))
+    return ref, _layout(a, case.get("layout", "C"))
+
+
+def _hdr_obj(vals, form):
+    if form == "none":
+        return None
+    if form == "scalar":
+        return float(vals[0])
+    if form == "scalar-int":
+        return int(vals[0])
+    if form == "list":
+        return [float(x) for x in vals]
+    if form in ("f8", "attr"):
+        return np.array(vals, dtype=np.float64)
+    if form == "f4":
+        return np.array(vals, dtype=np.float32)
+    if form == "i8":
+        return np.array([int(x) for x in vals], dtype=np.int64)
+    return tuple(float(x) for x in vals)
+
+
+def _density(case, a):
+    """the Density object of a case, origin / sampling rate handed over in the form the case asks for"""
+    from tme import Density
+    of, rf = case.get("oform", "tuple"), case.get("rform", "tuple")
+    kw = {}
+    if of not in ("none", "attr"):
+        kw["origin"] = _hdr_obj(case["origin"], of)
+    if rf not in ("none", "attr"):
+        kw["sampling_rate"] = _hdr_obj(case["rate"], rf)
+    d = Density(a, **kw)
+    if of == "attr":
+        d.origin = _hdr_obj(case["origin"], of)
+    if rf == "attr":
+        d.sampling_rate = _hdr_obj(case["rate"], rf)
+    return d
+
+
+def _rate_milli(case):
+    """int(self.sampling_rate[0] * 1000) of `_save_em`, in the arithmetic of the object the rate was given as"""
+    r = _hdr_obj(case["rate"], case.get("rform", "tuple"))
+    sr = np.asarray(1 if r is None else r)
+    sr = np.repeat(sr, 3 // sr.size)
+    return int(sr[0] * 1000)
 
 
 def _u32(x):
@@ -145,7 +323,7 @@ def _boxes_all(shape):
     return [list(b) for b in itertools.product(*rng_ax)]
 
 
-def _boxes_random(rng, shape, k):
+def _boxes_random(rng, shape, k, forms=False):
     out = [[(0, n) for n in shape], [(n - 1, n) for n in shape], [(0, 1) for _ in shape]]
     for _ in range(k):
         b = []
@@ -154,13 +332,28 @@ def _boxes_random(rng, shape, k):
             e = int(rng.integers(s + 1, n + 1))
             b.append((s, e))
         out.append(b)
+    # full along a random subset of the axes, proper along the others (what an optimised reader would special-case)
+    for _ in range(2 if forms else 0):
+        b = []
+        for n in shape:
+            if rng.random() < 0.5 or n == 1:
+                b.append((0, n))
+            else:
+                s = int(rng.integers(0, n))
+                e = int(rng.integers(s + 1, n + 1 if s > 0 else n))
+                b.append((s, e))
+        out.append(b)
     # one box with an empty axis
     b = [(0, n) for n in shape]
     ax = int(rng.integers(0, 3))
     s = int(rng.integers(0, shape[ax] + 1))
     b[ax] = (s, s)
     out.append(b)
-    return out
+    if not forms:
+        return out
+    # every box: bounds as python / numpy integers, with or without use_memmap
+    return [{"box": b, "memmap": bool(rng.integers(0, 2)) if i >= 2 else True, "form": str(rng.choice(_BOXFORMS))}
+            for i, b in enumerate(out)]
 
 
 def _boxes_malformed(rng, shape):
@@ -176,16 +369,32 @@ def _boxes_malformed(rng, shape):
     return out
 
 
+def _norm_boxes(boxes, memmap_boxes):
+    """[(box, use_memmap, form)]; a box is a list of (start, stop) or a dict with its own memmap flag / bound type"""
+    out = []
+    for i, b in enumerate(boxes):
+        if isinstance(b, dict):
+            out.append(([tuple(x) for x in b["box"]], bool(b.get("memmap")), b.get("form", "int")))
+        else:
+            out.append(([tuple(x) for x in b], i < memmap_boxes, "int"))
+    return out
+
+
 # ------------------------------------------------------------------------------------------------
 # running the real code
 # ------------------------------------------------------------------------------------------------
 _counter = [0]
 
 
+def _dir(*sub):
+    d = os.path.join(env.scratch(), "c08", *sub)
+    os.makedirs(d, exist_ok=True)
+    return d
+
+
 def _path(case):
     _counter[0] += 1
-    d = os.path.join(env.scratch(), "c08")
-    os.makedirs(d, exist_ok=True)
+    d = _dir()
     if case.get("reuse_path"):
         # the same file name written again with other content (a pipeline overwriting its output): what is read back must
         # be what was written last, whatever was read from that path before
@@ -193,20 +402,37 @@ def _path(case):
     return os.path.join(d, f"v{_counter[0]}.{case['fmt']}")
 
 
+def _to_file(dens, p, gz, call="kw"):
+    if call == "gzname" and gz:          # the caller already put ".gz" on the name
+        p = p + ".gz"
+    if call == "pos":
+        dens.to_file(p, gz)
+    elif call == "default" and not gz:
+        dens.to_file(p)
+    else:
+        dens.to_file(p, gzip=gz)
+    return p + ".gz" if gz and not p.endswith(".gz") else p
+
+
 def _write(case):
-    from tme import Density
     ref, a = _volume(case)
     p = _path(case)
-    Density(a, origin=tuple(case["origin"]), sampling_rate=tuple(case["rate"])).to_file(p, gzip=case["gzip"])
-    final = p + ".gz" if case["gzip"] else p
+    final = _to_file(_density(case, a), p, case["gzip"], case.get("call", "kw"))
     return ref, a, final
 
 
-def _read(path, box=None, memmap=False):
+def _slices(box, form="int"):
+    if form == "step1":
+        return tuple(slice(int(s), int(e), 1) for s, e in box)
+    cast = {"np64": np.int64, "np32": np.int32, "npi": np.intp}.get(form, int)
+    return tuple(slice(cast(s), cast(e)) for s, e in box)
+
+
+def _read(path, box=None, memmap=False, form="int"):
     """(ok, Density | error-name)"""
     from tme import Density
     try:
-        sub = None if box is None else tuple(slice(s, e) for s, e in box)
+        sub = None if box is None else _slices(box, form)
         return True, Density.from_file(path, subset=sub, use_memmap=memmap)
     except Exception as e:  # noqa
         return False, type(e).__name__
@@ -234,14 +460,58 @@ def _arr_res(dens):
 
 
 def _tokens(a, dtype):
-    b = np.dtype(dtype).itemsize
-    return np.ascontiguousarray(a).reshape(-1).view(_UINT[b]).tolist()
+    """tokens of `a` as `dtype` (native byte order) puts them on disk"""
+    dt = np.dtype(dtype)
+    return np.ascontiguousarray(np.asarray(a).astype(dt)).reshape(-1).view(_UINT[dt.itemsize]).tolist()
 
 
 def _model_tokens_as_f32bits(tokens, dtype):
-    b = np.dtype(dtype).itemsize
-    x = np.array(tokens, dtype=_UINT[b]).view(np.dtype(dtype))
+    dt = np.dtype(dtype)
+    x = np.array(tokens, dtype=_UINT[dt.itemsize]).view(dt)
     return _u32(x).tolist()
+
+
+_emw = {}
+
+
+def _em_written(ctx, dt):
+    """(dtype on disk, type code, item size) of `_save_em` for a density held as `dt`, from the model"""
+    if dt not in _emw:
+        m = ctx.driver.call("c08.emWrite", dtype=dt)
+        _emw[dt] = (m["dtype"], m["code"], m["b"])
+    return _emw[dt]
+
+
+def _regzip(plain, how, name):
+    """the plain bytes compressed the way other tools do it"""
+    import io
+    if how == "regzip-1":
+        return _gzip.compress(plain, compresslevel=1)
+    if how == "regzip-fname":       # gzip(1) stores the original file name and a time stamp
+        buf = io.BytesIO()
+        with _gzip.GzipFile(filename=name, mode="wb", fileobj=buf, compresslevel=9, mtime=1700000000) as fh:
+            fh.write(plain)
+        return buf.getvalue()
+    k = min(len(plain), 700)        # two members: `cat a.gz b.gz` is a valid gzip file of a ++ b
+    return _gzip.compress(plain[:k]) + _gzip.compress(plain[k:])
+
+
+def _header_clauses(ctx, fk, case, inp, dens, how=""):
+    """origin and sampling rate of a read-back against what the density was given"""
+    if fk == "mrc":
+        oko = all(_close(v, Fraction(o), Fraction(1, 2 ** 23)) for v, o in zip(dens.origin, case["origin"])) and len(dens.origin) == 3
+        ctx.spec(f"same origin (1 ulp float32){how}", inp, oko, {"got": np.asarray(dens.origin).tolist()}, key=_origin_key(case))
+        oks = all(_close(v, Fraction(s), Fraction(1, 2 ** 22)) for v, s in zip(dens.sampling_rate, case["rate"])) and len(dens.sampling_rate) == 3
+        ctx.spec(f"same sampling rate (float32){how}", inp, oks, {"got": np.asarray(dens.sampling_rate).tolist()}, key="mrc:sampling")
+    elif fk == "h5":
+        ctx.spec(f"same origin (exact){how}", inp, np.asarray(dens.origin).tolist() == case["origin"],
+                 {"got": np.asarray(dens.origin).tolist()}, key="h5:origin")
+        ctx.spec(f"same sampling rate (exact){how}", inp, np.asarray(dens.sampling_rate).tolist() == case["rate"],
+                 {"got": np.asarray(dens.sampling_rate).tolist()}, key="h5:sampling")
+    elif len(set(case["rate"])) == 1:
+        s = case["rate"][0]
+        oks = all(abs(float(v) - s) <= 0.001 + 1e-6 * s for v in dens.sampling_rate) and len(dens.sampling_rate) == 3
+        ctx.spec(f"EM isotropic sampling to 0.001{how}", inp, oks, {"got": np.asarray(dens.sampling_rate).tolist()}, key="em:sampling")
 
 
 def check_case(ctx, case, boxes=(), model=True, malformed=(), memmap_boxes=2):
@@ -253,53 +523,74 @@ def check_case(ctx, case, boxes=(), model=True, malformed=(), memmap_boxes=2):
     gz = case["gzip"]
     shape = list(case["shape"])
     nvox = int(np.prod(shape))
+    dt = case.get("dtype", "float32")
     try:
         ref, a, path = _write(case)
     except Exception as e:  # noqa
         ctx.spec("writing a density succeeds", _inp(case), False, type(e).__name__, key=f"{fk}:write-raises")
         return
     raw = open(path, "rb").read()
+    whole_file_gz = gz and fk != "h5"          # h5 "gzip" is an internal filter, the file itself is plain HDF5
+    if whole_file_gz:
+        okc = raw[:2] == b"\x1f\x8b"
+        try:
+            _gzip.decompress(raw)
+        except Exception:  # noqa
+            okc = False
+        ctx.spec("gzip=True writes a gzip stream", _inp(case), okc, key=f"{fk}:gzip-stream")
+        if not okc:
+            return
     ext = int(case.get("ext_header", 0)) if fk == "mrc" else 0
-    if ext:
-        # an MRC file as other programs write it: `nsymbt` bytes of extended header between header and data
-        plain = _gzip.decompress(raw) if gz else raw
-        filler = bytes((37 * i + 11) % 251 for i in range(ext))
-        plain = plain[:92] + np.array([ext], "<i4").tobytes() + plain[96:1024] + filler + plain[1024:]
-        raw = _gzip.compress(plain) if gz else plain
+    tr = case.get("transport") if fk != "h5" else None
+    if ext or tr:
+        plain = _gzip.decompress(raw) if whole_file_gz else raw
+        if ext:
+            # an MRC file as other programs write it: `nsymbt` bytes of extended header between header and data
+            filler = bytes((37 * i + 11) % 251 for i in range(ext))
+            plain = plain[:92] + np.array([ext], "<i4").tobytes() + plain[96:1024] + filler + plain[1024:]
+            ctx.count("mrc:extended-header")
+        old = path
+        if tr == "gunzipped" and whole_file_gz:          # `gunzip file.gz`, then read the plain file
+            path, raw, whole_file_gz = path[:-3], plain, False
+        elif tr == "gz-renamed" and whole_file_gz:        # a compressed file under a name without ".gz": only the magic number tells
+            path, raw = path[:-3], _gzip.compress(plain)
+        elif tr and tr.startswith("regzip"):              # compressed by another tool than `to_file`
+            path = path if path.endswith(".gz") else path + ".gz"
+            raw, whole_file_gz = _regzip(plain, tr, os.path.basename(path)[:-3]), True
+        else:
+            raw = _gzip.compress(plain) if whole_file_gz else plain
+        if old != path and os.path.exists(old):
+            os.remove(old)
         with open(path, "wb") as fh:
             fh.write(raw)
-        ctx.count("mrc:extended-header")
+        if tr:
+            ctx.count("transport:" + tr)
     ctx.count(f"fmt:{case['fmt']}{'.gz' if gz else ''}")
-    ctx.count(f"dtype:{case.get('dtype', 'float32')}/{case.get('layout', 'C')}")
+    ctx.count(f"dtype:{dt}")
+    ctx.count(f"layout:{case.get('layout', 'C')}")
+    ctx.count(f"origin-form:{case.get('oform', 'tuple')}")
+    ctx.count(f"rate-form:{case.get('rform', 'tuple')}")
     for k, v in case.get("kinds", {}).items():
         ctx.count(f"{k}:{v}")
     ctx.count("shape:" + ("distinct-extents" if len(set(shape)) == 3 else "repeated-extent"))
 
     # ---- gzip layer: sniffing agrees with the model, contract of the compressor holds
     content = raw
-    whole_file_gz = gz and fk != "h5"          # h5 "gzip" is an internal filter, the file itself is plain HDF5
     if model:
         from tme.density import is_gzipped
         ctx.agree("is_gzipped", {"head": raw[:4]}, bool(is_gzipped(path)), d.call("c08.isGz", head=raw[:4].hex()))
     if whole_file_gz:
-        okc = raw[:2] == b"\x1f\x8b"
-        try:
-            content = _gzip.decompress(raw)
-        except Exception:  # noqa
-            okc = False
-        ctx.spec("gzip=True writes a gzip stream", _inp(case), okc, key=f"{fk}:gzip-stream")
-        if not okc:
-            return
+        content = _gzip.decompress(raw)
     elif fk != "h5" and raw[:2] == b"\x1f\x8b" and model:
         ctx.note(f"plain {fk} file starts with the gzip magic number (shape {shape})")
 
-    dt = case.get("dtype", "float32")
     # ---- byte level correspondence
     header = None
+    wdt = "float32"
+    if fk == "em":
+        wdt, code, b = _em_written(ctx, dt)
     if model and fk == "em":
-        code, b = _CODE[dt]
-        rate_milli = int(np.asarray(case["rate"])[0] * 1000)          # same expression as _save_em
-        enc = d.call("c08.emEncode", code=code, b=b, shape=shape, rateMilli=rate_milli, data=_tokens(a, dt))
+        enc = d.call("c08.emEncode", code=code, b=b, shape=shape, rateMilli=_rate_milli(case), data=_tokens(a, wdt))
         ctx.agree("_save_em bytes", _inp(case), content.hex(), enc)
         header = 512
         for mm in (False, True):
@@ -313,7 +604,7 @@ def check_case(ctx, case, boxes=(), model=True, malformed=(), memmap_boxes=2):
             if "raised" in m:
                 mod = {"raised": True}
             else:
-                mod = {"shape": m["shape"], "data": _model_tokens_as_f32bits(m["data"], dt), "rate": [m["rateOut"]] * 3}
+                mod = {"shape": m["shape"], "data": _model_tokens_as_f32bits(m["data"], wdt), "rate": [m["rateOut"]] * 3}
             ctx.agree("_load_em" + ("(memmap)" if mm else ""), _inp(case, memmap=mm), impl, mod)
     if model and fk == "mrc":
         w = np.frombuffer(content[:1024], dtype="<i4")
@@ -324,10 +615,14 @@ def check_case(ctx, case, boxes=(), model=True, malformed=(), memmap_boxes=2):
         mod_i = {"nxyz": mf["nxyz"], "mode": mf["mode"], "mxyz": mf["mxyz"], "mapcrs": mf["mapcrs"], "nsymbt": mf["nsymbt"] + ext,
                  "map": b"MAP ".hex()}
         ctx.agree("_save_mrc header words (int)", _inp(case), impl_i, mod_i)
-        # start indices: rint(o/s) in float64 vs exact; skip exact-tie neighbourhoods
+        # start indices: rint(o/s) in float64 (float32 when both were given as float32 arrays) vs exact; skip the
+        # neighbourhood of ties that the division error can reach
         q = [Fraction(o) / Fraction(s) for o, s in zip(case["origin"], case["rate"])][::-1]
-        near_tie = any(abs((x % 1) - Fraction(1, 2)) < Fraction(1, 10 ** 9) and (x % 1) != Fraction(1, 2) for x in q)
-        if near_tie or any(abs(x) >= 2 ** 31 for x in q):
+        both32 = case.get("oform") == "f4" and case.get("rform") == "f4"
+        win = [Fraction(1, 10 ** 9) + abs(x) / (2 ** 22 if both32 else 2 ** 50) for x in q]
+        near_tie = any(abs((x % 1) - Fraction(1, 2)) < wn and (x % 1) != Fraction(1, 2) for x, wn in zip(q, win)) or \
+            (both32 and any((x % 1) == Fraction(1, 2) for x in q))
+        if near_tie or any(abs(x) >= 2 ** 31 - 1 for x in q):
             ctx.count("mrc:nstart-skipped")
         else:
             ctx.agree("_save_mrc nstart", _inp(case), w[4:7].tolist(), mf["nstart"])
@@ -367,37 +662,24 @@ def check_case(ctx, case, boxes=(), model=True, malformed=(), memmap_boxes=2):
     inp = _inp(case)
     ctx.spec("same shape and axis order", inp, list(full.data.shape) == shape, {"got": list(full.data.shape)}, key=f"{fk}:shape")
     ctx.spec("same voxel values as float32", inp, _same_bits(full.data, ref), key=f"{fk}:data")
-    if fk == "mrc":
-        oko = all(_close(v, Fraction(o), Fraction(1, 2 ** 23)) for v, o in zip(full.origin, case["origin"]))
-        ctx.spec("same origin (1 ulp float32)", inp, oko, {"got": np.asarray(full.origin).tolist()}, key=_origin_key(case))
-        oks = all(_close(v, Fraction(s), Fraction(1, 2 ** 22)) for v, s in zip(full.sampling_rate, case["rate"]))
-        ctx.spec("same sampling rate (float32)", inp, oks, {"got": np.asarray(full.sampling_rate).tolist()}, key="mrc:sampling")
-    elif fk == "h5":
-        ctx.spec("same origin (exact)", inp, np.asarray(full.origin).tolist() == case["origin"],
-                 {"got": np.asarray(full.origin).tolist()}, key="h5:origin")
-        ctx.spec("same sampling rate (exact)", inp, np.asarray(full.sampling_rate).tolist() == case["rate"],
-                 {"got": np.asarray(full.sampling_rate).tolist()}, key="h5:sampling")
-    elif len(set(case["rate"])) == 1:
-        s = case["rate"][0]
-        oks = all(abs(float(v) - s) <= 0.001 + 1e-6 * s for v in full.sampling_rate)
-        ctx.spec("EM isotropic sampling to 0.001", inp, oks, {"got": np.asarray(full.sampling_rate).tolist()}, key="em:sampling")
+    _header_clauses(ctx, fk, case, inp, full)
     if nvox > 1:
         ctx.distinct((case["fmt"], gz, tuple(shape), dt, case.get("layout", "C"), "full"))
 
-    # ---- memory-mapped full read returns the same data
+    # ---- memory-mapped full read returns the same data, origin and sampling rate
     okm, mm = _read(path, memmap=True)
     if not okm:
         ctx.spec("memory-mapped read succeeds", _inp(case, memmap=True), False, mm, key=f"{fk}:memmap-raises")
     else:
         ctx.spec("memory-mapped read == in-memory read", _inp(case, memmap=True),
                  _same_bits(mm.data, np.asarray(full.data)), key=f"{fk}:memmap")
+        _header_clauses(ctx, fk, case, _inp(case, memmap=True), mm, " (memory-mapped read)")
         ctx.count("memmap:" + type(mm.data).__name__)
         if nvox > 1:
             ctx.distinct((case["fmt"], gz, tuple(shape), dt, case.get("layout", "C"), "memmap"))
 
         # a density obtained from a memory-mapped read written again (what pipelines do with big tomograms)
         if case.get("regen"):
-            from tme import Density
             p2 = _path(case)
             try:
                 mm.to_file(p2, gzip=gz)
@@ -417,16 +699,17 @@ def check_case(ctx, case, boxes=(), model=True, malformed=(), memmap_boxes=2):
                     os.remove(q)
 
     # ---- sub-boxes
-    boxes = [[tuple(x) for x in b] for b in boxes]
+    nboxes = _norm_boxes(boxes, memmap_boxes)
+    boxes = [b for b, _, _ in nboxes]
+    plain_file = not whole_file_gz
     results = []
-    for i, box in enumerate(boxes):
-        use_mm = i < memmap_boxes
-        oks, sub = _read(path, box=box, memmap=use_mm)
-        binp = _inp(case, box=box, memmap=use_mm)
+    for box, use_mm, form in nboxes:
+        oks, sub = _read(path, box=box, memmap=use_mm, form=form)
+        binp = _inp(case, box=box, memmap=use_mm, boxform=form)
         want = ref[tuple(slice(s, e) for s, e in box)]
         empty = want.size == 0
         skey = f"{fk}:subset"
-        if fk == "mrc" and not gz and shape[2] % 65536 == 35615:
+        if fk == "mrc" and plain_file and shape[2] % 65536 == 35615:
             skey = "mrc:subset:nx-gzip-magic"
         if not oks:
             ctx.spec("sub-box read succeeds", binp, False, sub, key=skey + "-raises" if skey.endswith("subset") else skey)
@@ -437,15 +720,16 @@ def check_case(ctx, case, boxes=(), model=True, malformed=(), memmap_boxes=2):
             results.append(_arr_res(sub))
             kind = "full" if want.shape == ref.shape else "single-voxel" if want.size == 1 else "empty" if empty else "proper"
             ctx.count("box:" + kind)
+            ctx.count("box-bounds:" + form)
             if not empty and nvox > 1:
                 ctx.distinct((case["fmt"], gz, tuple(shape), dt, case.get("layout", "C"), tuple(box), use_mm))
     if model and boxes:
         if header is not None:
-            b = 4 if fk == "mrc" else _CODE[dt][1]
+            b = 4 if fk == "mrc" else np.dtype(wdt).itemsize
             ms = d.call("c08.subsets", file=content.hex(), header=header, shape=shape, b=b, boxes=boxes)
             for box, impl, m in zip(boxes, results, ms):
                 mod = {"raised": True} if "raised" in m else \
-                    {"shape": m["shape"], "data": _model_tokens_as_f32bits(m["data"], "float32" if fk == "mrc" else dt)}
+                    {"shape": m["shape"], "data": _model_tokens_as_f32bits(m["data"], "float32" if fk == "mrc" else wdt)}
                 ctx.agree(f"{fk} sub-box read", _inp(case, box=box), impl, mod)
         else:
             for box, impl in zip(boxes, results):
@@ -455,19 +739,27 @@ def check_case(ctx, case, boxes=(), model=True, malformed=(), memmap_boxes=2):
     # ---- malformed boxes: outcome (raised / data) as the model predicts; not part of the property
     if model and malformed and header is not None:
         malformed = [[tuple(x) for x in b] for b in malformed]
-        b = 4 if fk == "mrc" else _CODE[dt][1]
+        b = 4 if fk == "mrc" else np.dtype(wdt).itemsize
         ms = d.call("c08.subsets", file=content.hex(), header=header, shape=shape, b=b, boxes=malformed, mrcpad=(fk == "mrc"))
         for box, m in zip(malformed, ms):
             oks, sub = _read(path, box=box)
             impl = _arr_res(sub) if oks else {"raised": True}
             mod = {"raised": True} if "raised" in m else \
-                {"shape": m["shape"], "data": _model_tokens_as_f32bits(m["data"], "float32" if fk == "mrc" else dt)}
+                {"shape": m["shape"], "data": _model_tokens_as_f32bits(m["data"], "float32" if fk == "mrc" else wdt)}
             ctx.agree(f"{fk} malformed sub-box outcome", _inp(case, box=box), impl, mod)
             ctx.count("malformed:" + (m.get("raised", "ok") if isinstance(m, dict) else "ok"))
+    del full, mm
     try:
         os.remove(path)
     except OSError:
         pass
+    if isinstance(a, np.memmap):
+        fn = a.filename
+        del a
+        try:
+            os.remove(fn)
+        except OSError:
+            pass
 
 
 # ------------------------------------------------------------------------------------------------
@@ -562,6 +854,377 @@ def _obligations(ctx):
 
 
 # ------------------------------------------------------------------------------------------------
+# MRC files as other programs write them (mrcfile itself): every data mode the reader accepts, big-endian files, extended
+# headers, start indices without an origin, every MAPC/MAPR/MAPS order.  Target tomograms reach the sub-box reader this way.
+# ------------------------------------------------------------------------------------------------
+_MODES = {"int8": 0, "int16": 1, "float32": 2, "uint16": 6, "float16": 12}
+
+
+def gen_foreign(rng, ctx=None):
+    shape = [int(x) for x in rng.choice(np.arange(1, 7), size=3, replace=False)]
+    if rng.random() < 0.15:
+        shape[int(rng.integers(0, 3))] = int(rng.integers(20, 40))
+    md = str(rng.choice(list(_MODES)))
+    bits, _ = _gen_bits(rng, md, int(np.prod(shape)))
+    crs = [1, 2, 3] if rng.random() < 0.35 else [int(x) for x in rng.permutation([1, 2, 3])]
+    if rng.random() < 0.5:
+        voxel = [float(x) for x in rng.choice([0.5, 1.0, 1.25, 2.0, 4.0], size=3)]
+    else:
+        voxel = [float(x) for x in rng.uniform(0.3, 25.0, size=3)]
+    origin = [0.0, 0.0, 0.0] if rng.random() < 0.45 else [float(x) for x in rng.uniform(-200, 200, size=3)]
+    nstart = [0, 0, 0] if rng.random() < 0.5 else [int(x) for x in rng.integers(-20, 21, size=3)]
+    return {"foreign": True, "shape": shape, "bits": bits.tolist(), "mode": md, "crs": crs, "voxel": voxel, "origin_xyz": origin,
+            "nstart_xyz": nstart, "ext": int(rng.choice([0, 0, 0, 4, 80, 1024])), "gzip": bool(rng.integers(0, 2)),
+            "endian": ">" if rng.random() < 0.15 else "<"}
+
+
+def _write_foreign(fc):
+    """(array in file order, path, plain bytes)"""
+    import mrcfile
+    from mrcfile.dtypes import HEADER_DTYPE
+    md = np.dtype(fc["mode"])
+    a = np.array(fc["bits"], dtype=np.uint64).astype(_UINT[md.itemsize]).view(md).reshape(fc["shape"])
+    _counter[0] += 1
+    p = os.path.join(_dir(), f"f{_counter[0]}.mrc")
+    with mrcfile.new(p, overwrite=True) as m:
+        m.set_data(a)
+        m.voxel_size = tuple(fc["voxel"])
+        m.header.origin = tuple(fc["origin_xyz"])
+        m.header.nxstart, m.header.nystart, m.header.nzstart = fc["nstart_xyz"]
+        m.header.mapc, m.header.mapr, m.header.maps = fc["crs"]
+    plain = open(p, "rb").read()
+    ext = int(fc.get("ext", 0))
+    if ext:
+        filler = bytes((37 * i + 11) % 251 for i in range(ext))
+        plain = plain[:92] + np.array([ext], "<i4").tobytes() + plain[96:1024] + filler + plain[1024:]
+    if fc.get("endian", "<") == ">":
+        hb = np.frombuffer(plain[:1024], HEADER_DTYPE).astype(HEADER_DTYPE.newbyteorder(">"))
+        hb["machst"] = [0x11, 0x11, 0, 0]
+        data = np.frombuffer(plain[1024 + ext:], dtype=md).astype(md.newbyteorder(">")).tobytes()
+        plain = hb.tobytes() + plain[1024:1024 + ext] + data
+    if ext or fc.get("endian", "<") == ">" or fc["gzip"]:
+        os.remove(p)
+        if fc["gzip"]:
+            p += ".gz"
+        with open(p, "wb") as fh:
+            fh.write(_gzip.compress(plain) if fc["gzip"] else plain)
+    return a, p, plain
+
+
+def check_foreign(ctx, fc, nbox=6, model=True, rng=None, boxes=None):
+    d = ctx.driver
+    inp = dict(fc)
+    a, path, plain = _write_foreign(fc)
+    crs = [c - 1 for c in fc["crs"]]
+    standard = crs == [0, 1, 2]
+    ext = int(fc.get("ext", 0))
+    le = fc.get("endian", "<") == "<"
+    file_ref = a.astype(np.float32)
+    ctx.count(f"foreign:mode-{fc['mode']}")
+    ctx.count("foreign:crs-" + "".join(str(c) for c in fc["crs"]))
+    ctx.count("foreign:" + ("little-endian" if le else "big-endian"))
+    okr, full = _read(path)
+    if not okr:
+        ctx.spec("reading an MRC file written by mrcfile succeeds", inp, False, full, key="mrc:read-raises")
+        return
+    out_shape = [fc["shape"][i] for i in crs]
+    if standard:
+        ctx.spec("same shape and axis order", inp, list(full.data.shape) == fc["shape"], {"got": list(full.data.shape)}, key="mrc:shape")
+        ctx.spec("same voxel values as float32", inp, _same_bits(full.data, file_ref), key="mrc:data")
+        oks = all(_close(v, Fraction(s), Fraction(1, 2 ** 22)) for v, s in zip(full.sampling_rate, fc["voxel"][::-1]))
+        ctx.spec("same sampling rate (float32)", inp, oks, {"got": np.asarray(full.sampling_rate).tolist()}, key="mrc:sampling")
+        if any(abs(x) > 1e-8 for x in fc["origin_xyz"]):
+            oko = all(_close(v, Fraction(o), Fraction(1, 2 ** 23)) for v, o in zip(full.origin, fc["origin_xyz"][::-1]))
+            ctx.spec("same origin (1 ulp float32)", inp, oko, {"got": np.asarray(full.origin).tolist()}, key="mrc:origin")
+        elif all(x == 0 for x in fc["origin_xyz"]):
+            # old-style files: no origin words, the position is given by the start indices (z, y, x order like everything else)
+            want = [Fraction(n) * Fraction(s) for n, s in zip(fc["nstart_xyz"][::-1], fc["voxel"][::-1])]
+            oko = all(_close(v, o, Fraction(1, 2 ** 21)) for v, o in zip(full.origin, want))
+            ctx.spec("origin from the start indices when the origin words are zero", inp, oko,
+                     {"got": np.asarray(full.origin).tolist()}, key="mrc:origin:nstart")
+    if model:
+        if list(full.data.shape) == out_shape:
+            m = d.call("c08.transpose", shape=fc["shape"], data=_u32(file_ref).reshape(-1).tolist(), perm=crs)
+            ctx.agree("_load_mrc full read == transpose(file data, crs)", inp, _arr_res(full), {"shape": m["shape"], "data": m["data"]})
+        else:
+            ctx.agree("_load_mrc full read shape", inp, list(full.data.shape), out_shape)
+        if standard:
+            e = "<" if le else ">"
+            w = np.frombuffer(plain[:1024], dtype=e + "i4")
+            fl = np.frombuffer(plain[:1024], dtype=e + "f4")
+            fields = {"nxyz": w[0:3].tolist(), "mode": int(w[3]), "nstart": w[4:7].tolist(), "mxyz": w[7:10].tolist(),
+                      "cella": [_frac(x) for x in fl[10:13]], "mapcrs": w[16:19].tolist(),
+                      "origin": [_frac(x) for x in fl[49:52]], "nsymbt": int(w[23])}
+            mr = d.call("c08.mrcRead", **fields)
+            same = "raised" not in mr and list(full.data.shape) == mr["shape"] and \
+                all(_close(v, Fraction(n, dd), Fraction(1, 2 ** 22)) for v, (n, dd) in zip(full.origin, mr["origin"])) and \
+                all(_close(v, Fraction(n, dd), Fraction(1, 2 ** 22)) for v, (n, dd) in zip(full.sampling_rate, mr["rate"]))
+            ctx.agree("_load_mrc header (file written by mrcfile)", inp, "match" if same else
+                      {"shape": list(full.data.shape), "origin": np.asarray(full.origin).tolist(), "rate": np.asarray(full.sampling_rate).tolist()},
+                      "match" if same else mr)
+    nvox = int(np.prod(fc["shape"]))
+    okm, mm = _read(path, memmap=True)
+    if not okm:
+        ctx.spec("memory-mapped read succeeds", dict(inp, memmap=True), False, mm, key="mrc:memmap-raises")
+    else:
+        ctx.spec("memory-mapped read == in-memory read", dict(inp, memmap=True), _same_bits(mm.data, np.asarray(full.data)), key="mrc:memmap")
+        same_hdr = np.array_equal(np.asarray(mm.origin), np.asarray(full.origin)) and \
+            np.array_equal(np.asarray(mm.sampling_rate), np.asarray(full.sampling_rate))
+        ctx.spec("memory-mapped read: origin and sampling rate of the in-memory read", dict(inp, memmap=True), same_hdr,
+                 {"origin": np.asarray(mm.origin).tolist(), "rate": np.asarray(mm.sampling_rate).tolist()}, key="mrc:memmap-header")
+        ctx.count("memmap:" + type(mm.data).__name__)
+        if nvox > 1:
+            ctx.distinct(("foreign", fc["mode"], fc["gzip"], tuple(fc["shape"]), tuple(fc["crs"]), fc.get("endian"), "memmap"))
+    # sub-boxes are given in the axes of the volume the caller sees
+    if boxes is None:
+        boxes = _boxes_random(rng, list(full.data.shape), nbox, forms=True) if nvox <= 30 * 40 else []
+        if nvox <= 24 and rng.random() < 0.3:
+            boxes = [{"box": b, "memmap": False, "form": "int"} for b in _boxes_all(list(full.data.shape))]
+    nboxes = _norm_boxes(boxes, 0)
+    skey = "mrc:subset" if standard else "mrc:subset:crs"
+    fdata = np.asarray(full.data)
+    results = []
+    for box, use_mm, form in nboxes:
+        oks, sub = _read(path, box=box, memmap=use_mm, form=form)
+        binp = dict(inp, box=box, memmap=use_mm, boxform=form)
+        if not oks:
+            ctx.spec("sub-box read succeeds", binp, False, sub, key=skey + "-raises")
+            results.append({"raised": True})
+            continue
+        want = fdata[tuple(slice(s, e) for s, e in box)]
+        ctx.spec("sub-box == slice of the full volume", binp, _same_bits(sub.data, want), {"got_shape": list(sub.data.shape)}, key=skey)
+        results.append(_arr_res(sub))
+        ctx.count("box:foreign")
+        if want.size and nvox > 1:
+            ctx.distinct(("foreign", fc["mode"], fc["gzip"], tuple(fc["shape"]), tuple(fc["crs"]), fc.get("endian"), tuple(box), use_mm))
+    if model and le and nboxes:
+        ms = d.call("c08.crsSubsets", file=plain.hex(), header=1024 + ext, shape=fc["shape"], b=np.dtype(fc["mode"]).itemsize,
+                    crs=crs, boxes=[b for b, _, _ in nboxes])
+        for (box, _, _), impl, m in zip(nboxes, results, ms):
+            mod = {"raised": True} if "raised" in m else {"shape": m["shape"], "data": _model_tokens_as_f32bits(m["data"], fc["mode"])}
+            ctx.agree("mrc sub-box read (any axis order)", dict(inp, box=box), impl, mod)
+    del full, mm
+    try:
+        os.remove(path)
+    except OSError:
+        pass
+
+
+# ------------------------------------------------------------------------------------------------
+# sessions: several writes and reads in one process.  Each is described by a small record (seed + parameters) from which the
+# volumes are regenerated, so a failing step can be replayed.
+# ------------------------------------------------------------------------------------------------
+def _readback_clauses(ctx, fk, exp, inp, dens, ref, how):
+    ctx.spec(f"same shape and axis order{how}", inp, list(dens.data.shape) == list(ref.shape), {"got": list(dens.data.shape)}, key=f"{fk}:shape")
+    ctx.spec(f"same voxel values as float32{how}", inp, _same_bits(dens.data, ref), key=f"{fk}:data")
+    _header_clauses(ctx, fk, exp, inp, dens, how)
+
+
+def _sess_state(rng, shape):
+    v = (rng.standard_normal(shape) * 10.0 ** int(rng.integers(-3, 3))).astype(np.float32)
+    o = [float(x) for x in rng.integers(-40, 41, size=3) * 0.25]
+    r = [float(rng.choice([0.5, 0.75, 1.5, 2.0, 3.25, 6.5]))] * 3
+    return v, o, r
+
+
+def session_same_object(ctx, inp):
+    """one Density object written to every format in turn, changed in place, written again to the same paths, then given
+    another volume: every file must hold what the object held when it was written"""
+    from tme import Density
+    rng = np.random.default_rng(inp["seed"])
+    shape = tuple(inp["shape"])
+    _counter[0] += 1
+    d0 = _dir(f"obj{_counter[0]}")
+    # the last volume is smaller than the files already on disk: nothing of the longer old content may survive
+    small = tuple(max(1, n - 1) if i == 0 else n for i, n in enumerate(shape[::-1]))
+    states = [_sess_state(rng, shape), _sess_state(rng, shape), _sess_state(rng, small)]
+    dens = None
+    for ph, (v, o, r) in enumerate(states):
+        phase = ("first", "after a change in place", "after the volume was replaced")[ph]
+        if ph == 0:
+            dens = Density(v.copy(), origin=tuple(o), sampling_rate=tuple(r))
+        elif ph == 1:
+            dens.data[...] = v
+            dens.origin[...] = o
+            dens.sampling_rate[...] = r
+        else:
+            dens.data, dens.origin, dens.sampling_rate = v.copy(), np.array(o), np.array(r)
+        for k, (fmt, gz) in enumerate(inp["order"]):
+            fk = "mrc" if fmt in ("mrc", "map") else fmt
+            step = dict(inp, step=[ph, k])
+            try:
+                final = _to_file(dens, os.path.join(d0, f"obj_{k}.{fmt}"), bool(gz))
+            except Exception as e:  # noqa
+                ctx.spec("writing a density succeeds", step, False, type(e).__name__, key=f"{fk}:write-raises")
+                continue
+            okr, back = _read(final, memmap=bool((k + ph) % 2))
+            if not okr:
+                ctx.spec("reading back succeeds", step, False, back, key=f"{fk}:read-raises")
+                continue
+            _readback_clauses(ctx, fk, {"origin": o, "rate": r}, step, back, v, f" ({phase}; one object written to several files)")
+            del back
+            ctx.count("session:same-object-writes")
+    ctx.distinct(("session-same-object", tuple(shape), tuple(tuple(x) for x in inp["order"])))
+
+
+_NAME_PAIRS = {"length": ("vol", "vol2"), "case": ("vol", "Vol"), "dir": (os.path.join("a", "vol"), os.path.join("b", "vol")),
+               "digits": ("t_1", "t_10"), "prefix": ("xvol", "vol")}
+
+
+def session_two_files(ctx, inp):
+    """two files of one format and shape whose names differ only by length / case / directory, with different content,
+    read alternately (full, sub-box, memory-mapped): every read returns the content of the file that was named"""
+    from tme import Density
+    rng = np.random.default_rng(inp["seed"])
+    shape = tuple(inp["shape"])
+    fmt, gz = inp["fmt"], bool(inp["gzip"])
+    fk = "mrc" if fmt in ("mrc", "map") else fmt
+    _counter[0] += 1
+    d0 = _dir(f"pair{_counter[0]}")
+    files = []
+    for stem in _NAME_PAIRS[inp["names"]]:
+        v, o, r = _sess_state(rng, shape)
+        p = os.path.join(d0, f"{stem}.{fmt}")
+        os.makedirs(os.path.dirname(p), exist_ok=True)
+        final = _to_file(Density(v, origin=tuple(o), sampling_rate=tuple(r)), p, gz)
+        files.append((final, v, o, r))
+    box = [(int(rng.integers(0, n)), n) for n in shape]
+    box = [(s, int(rng.integers(s + 1, n + 1))) for (s, n) in box]
+    plan = [(0, "full"), (1, "full"), (0, "sub"), (1, "sub"), (0, "memmap"), (1, "memmap"), (0, "sub-memmap"), (1, "sub"),
+            (1, "full"), (0, "full")]
+    for k, (which, mode) in enumerate(plan):
+        final, v, o, r = files[which]
+        step = dict(inp, step=k, which=which, mode=mode, box=box)
+        sub = mode.startswith("sub")
+        okr, back = _read(final, box=box if sub else None, memmap=mode.endswith("memmap"))
+        how = f" (file {'AB'[which]} of two files named alike, read {mode})"
+        if not okr:
+            ctx.spec("reading back succeeds", step, False, back, key=f"{fk}:read-raises")
+            continue
+        if sub:
+            ctx.spec("sub-box == slice of the full volume" + how, step, _same_bits(back.data, v[tuple(slice(s, e) for s, e in box)]),
+                     {"got_shape": list(back.data.shape)}, key=f"{fk}:subset")
+        else:
+            _readback_clauses(ctx, fk, {"origin": o, "rate": r}, step, back, v, how)
+        del back
+        ctx.count("session:two-files-reads")
+    ctx.distinct(("session-two-files", fmt, gz, inp["names"], tuple(shape)))
+
+
+def session_chain(ctx, inp):
+    """write (format 1) -> read (in memory / memory-mapped / sub-box) -> write (format 2) -> read: the values survive, and
+    so do origin and sampling rate where both formats keep them"""
+    from tme import Density
+    rng = np.random.default_rng(inp["seed"])
+    shape = tuple(inp["shape"])
+    f1, g1, f2, g2, mode = inp["fmt1"], bool(inp["gzip1"]), inp["fmt2"], bool(inp["gzip2"]), inp["mode"]
+    k1, k2 = ("mrc" if f in ("mrc", "map") else f for f in (f1, f2))
+    dt = inp.get("dtype", "float32")
+    v, o, r = _sess_state(rng, shape)
+    if dt != "float32":
+        v = np.round(np.clip(v, -100, 100)).astype(dt)
+    ref = v.astype(np.float32)
+    _counter[0] += 1
+    d0 = _dir(f"chain{_counter[0]}")
+    key = f"chain:{k1}->{k2}"
+    p1 = _to_file(Density(v, origin=tuple(o), sampling_rate=tuple(r)), os.path.join(d0, f"first.{f1}"), g1)
+    box = None
+    if mode.startswith("sub"):
+        box = [(int(rng.integers(0, n)), n) for n in shape]
+        box = [(s, int(rng.integers(s + 1, n + 1))) for (s, n) in box]
+        ref = ref[tuple(slice(s, e) for s, e in box)]
+    step = dict(inp, box=box)
+    okr, mid = _read(p1, box=box, memmap=mode.endswith("memmap"))
+    if not okr:
+        ctx.spec("reading back succeeds", step, False, mid, key=f"{k1}:read-raises")
+        return
+    try:
+        p2 = _to_file(mid, os.path.join(d0, f"second.{f2}"), g2)
+    except Exception as e:  # noqa
+        ctx.spec("a density that was read from a file can be written", step, False, type(e).__name__, key=key)
+        return
+    okr, back = _read(p2)
+    if not okr:
+        ctx.spec("read -> write -> read returns the same density", step, False, back, key=key)
+        return
+    good = _same_bits(back.data, ref)
+    detail = {"got_shape": list(back.data.shape)}
+    if good and "em" not in (k1, k2):
+        good = all(_close(x, Fraction(y), Fraction(1, 2 ** 22)) for x, y in zip(back.origin, o)) and \
+            all(_close(x, Fraction(y), Fraction(1, 2 ** 21)) for x, y in zip(back.sampling_rate, r))
+        detail = {"origin": np.asarray(back.origin).tolist(), "rate": np.asarray(back.sampling_rate).tolist()}
+    elif good:
+        good = all(abs(float(x) - r[0]) <= 0.002 + 1e-6 * r[0] for x in back.sampling_rate)
+        detail = {"rate": np.asarray(back.sampling_rate).tolist()}
+    ctx.spec("read -> write -> read returns the same density", step, good, detail, key=key)
+    ctx.count(f"session:chain-{mode}")
+    ctx.distinct(("session-chain", f1, g1, f2, g2, mode, dt, tuple(shape)))
+    del mid, back
+
+
+def big_sparse(ctx, inp):
+    """a file beyond 2 GiB / 4 GiB (sparse on disk: only a few rows are written): byte offsets of sub-boxes do not fit 32 bits"""
+    from tme import Density
+    nz, ny, nx = inp["shape"]
+    fmt = inp["fmt"]
+    dt = np.dtype(inp.get("dtype", "float32"))
+    _counter[0] += 1
+    p = os.path.join(_dir(), f"sparse{_counter[0]}.{fmt}")
+    rows = [tuple(x) for x in inp["rows"]]          # (z, y, x0): five consecutive voxels 1..5 planted there
+    try:
+        if fmt == "em":
+            tiny = os.path.join(_dir(), f"sparse{_counter[0]}_hdr.em")
+            Density(np.zeros((1, 1, 1), dt), sampling_rate=(2.0, 2.0, 2.0)).to_file(tiny)
+            hdr = bytearray(open(tiny, "rb").read()[:512])
+            os.remove(tiny)
+            hdr[4:16] = np.array([nx, ny, nz], "<i4").tobytes()
+            header = 512
+            with open(p, "wb") as fh:
+                fh.write(bytes(hdr))
+                fh.truncate(header + nz * ny * nx * dt.itemsize)
+        else:
+            import mrcfile
+            with mrcfile.new_mmap(p, shape=(nz, ny, nx), mrc_mode=_MODES[dt.name], overwrite=True) as m:
+                m.voxel_size = (2.0, 2.0, 2.0)
+            header = 1024
+        with open(p, "r+b") as fh:
+            for (z, y, x0) in rows:
+                fh.seek(header + ((z * ny + y) * nx + x0) * dt.itemsize)
+                fh.write(np.arange(1, 6).astype(dt).tobytes())
+    except OSError as e:   # no room / no sparse files on the scratch file system: nothing to report about pyTME
+        ctx.note(f"sparse {fmt} file of {nz * ny * nx * dt.itemsize} bytes could not be created: {e}")
+        if os.path.exists(p):
+            os.remove(p)
+        return
+    ctx.count("sparse:" + fmt)
+    for i, (z, y, x0) in enumerate(rows):
+        lo = max(0, x0 - 2)
+        box = [(z, z + 1), (max(0, y - 1), min(ny, y + 2)), (lo, min(nx, x0 + 8))]
+        want = np.zeros([e - s for s, e in box], np.float32)
+        want[0, y - box[1][0], x0 - lo:x0 - lo + 5] = np.arange(1, 6)
+        form = ("int", "np64", "np32")[i % 3]
+        step = dict(inp, box=box, boxform=form, byte_offset=header + ((z * ny + y) * nx + x0) * dt.itemsize)
+        oks, sub = _read(p, box=box, form=form)
+        if not oks:
+            ctx.spec("sub-box read succeeds", step, False, sub, key=f"{fmt}:subset-raises")
+            continue
+        ctx.spec("sub-box == slice of the full volume", step, _same_bits(sub.data, want),
+                 {"got": np.asarray(sub.data, dtype=np.float32).ravel().tolist()[:40]}, key=f"{fmt}:subset")
+        ctx.distinct(("sparse", fmt, dt.name, tuple(box)))
+    okm, mm = _read(p, memmap=True)
+    if not okm:
+        ctx.spec("memory-mapped read succeeds", dict(inp, memmap=True), False, mm, key=f"{fmt}:memmap-raises")
+    else:
+        z, y, x0 = rows[-1]
+        got = np.asarray(mm.data[z, y, x0:x0 + 5], dtype=np.float32)
+        ctx.spec("memory-mapped read == in-memory read", dict(inp, memmap=True, at=[z, y, x0]),
+                 list(mm.data.shape) == [nz, ny, nx] and np.array_equal(got, np.arange(1, 6, dtype=np.float32)), {"got": got.tolist()},
+                 key=f"{fmt}:memmap")
+        del mm
+    os.remove(p)
+
+
+# ------------------------------------------------------------------------------------------------
 # fixed cases: pre-findings / known findings / regression of the fix: commits
 # ------------------------------------------------------------------------------------------------
 def _fixed_cases(ctx, model=True):
@@ -590,13 +1253,87 @@ def _fixed_cases(ctx, model=True):
     # known: origin within 1e-8 of zero is replaced by start*rate
     tiny = dict(base, origin=[5.04e-9, 0.0, 0.0], rate=[1e-10, 1e-10, 1e-10], fmt="mrc", gzip=False)
     check_case(ctx, tiny, model=False)
+    # fixed: dtypes without an EM type code were dumped raw under type code 5 (float32)
+    for dt in ("uint8", "uint16", "float16", "bool", "int64", "float32-be"):
+        n = 24
+        bits = _gen_bits(rng, dt, n)[0].tolist()
+        check_case(ctx, dict(base, dtype=dt, bits=bits, fmt="em", gzip=(dt == "uint16")), boxes=[[(0, 1), (1, 3), (1, 4)]], model=model)
+    # fixed: integer EM files read memory-mapped / by sub-box reported their sampling rate in the integer dtype (2.5 -> 2)
+    for dt in ("int8", "int16", "int32"):
+        bits = _gen_bits(rng, dt, 24)[0].tolist()
+        check_case(ctx, dict(base, dtype=dt, bits=bits, fmt="em", gzip=False, rate=[2.5, 2.5, 2.5]), boxes=[[(0, 1), (1, 3), (1, 4)]],
+                   model=model)
+    # fixed: sub-boxes of MRC files whose MAPC/MAPR/MAPS is a cyclic permutation addressed the wrong axes
+    for crs in ([2, 3, 1], [3, 1, 2], [1, 3, 2]):
+        fc = {"foreign": True, "shape": [2, 3, 4], "bits": _gen_bits(rng, "float32", 24)[0].tolist(), "mode": "float32", "crs": crs,
+              "voxel": [1.0, 2.0, 3.0], "origin_xyz": [10.0, 20.0, 30.0], "nstart_xyz": [0, 0, 0], "ext": 0, "gzip": False, "endian": "<"}
+        out = [fc["shape"][c - 1] for c in crs]
+        check_foreign(ctx, fc, model=model, boxes=[[(0, 1), (1, 2), (0, 2)], [(0, out[0]), (0, 1)], [(1, 2)]] +
+                      ([] if not model else _boxes_all(out)[::7]))
+
+
+def _wide_cases(ctx, model=False):
+    """extents that need a second / third byte in headers and offsets, volumes larger than the buffers of the I/O layers
+    (described by a seed, compared clause by clause), files beyond 2 and 4 GiB"""
+    rng = ctx.rng("wide")
+    shapes = [[1, 2, 65537], [65537, 1, 2], [2, 65600, 1], [3, 300, 2], [300, 2, 3], [40, 65, 130]]
+    if ctx.thorough:
+        shapes += [[70, 129, 257], [257, 70, 129], [1, 1, 1 << 21]]
+    for shape in shapes:
+        for j, (fmt, gz) in enumerate((f, g) for f in ("mrc", "em", "h5") for g in (False, True)):
+            if not ctx.thorough and (j in (0, 3, 4)) == bool(ctx.seed % 2):
+                continue   # quick tier: half of the grid (compressed and plain files in each half), the rest with the next seed
+            c = gen_case(rng, ctx, fmt=fmt, gz=gz)
+            c["shape"] = shape
+            del c["bits"]
+            c["valseed"] = int(rng.integers(0, 2 ** 31))
+            c["kinds"]["values"] = "seeded"
+            if c["layout"] == "strided" and int(np.prod(shape)) > 10 ** 6:
+                c["layout"] = "F"
+            check_case(ctx, c, boxes=_boxes_random(rng, shape, 5, forms=True), model=model)
+            ctx.count("wide-shape-volumes")
+    rows = [[2, 19990, 11000], [3, 5, 7], [4, 9470, 3456], [5, 19999, 11995]]
+    big = [{"sparse": True, "fmt": "em", "shape": [6, 20000, 12000], "dtype": "float32", "rows": rows},
+           {"sparse": True, "fmt": "mrc", "shape": [6, 20000, 12000], "dtype": "float32", "rows": rows}]
+    if ctx.thorough:
+        big += [{"sparse": True, "fmt": "mrc", "shape": [9, 30000, 20000], "dtype": "int8", "rows": [[4, 1, 2], [8, 29999, 19995]]},
+                {"sparse": True, "fmt": "em", "shape": [5, 30000, 20000], "dtype": "int16", "rows": [[2, 1, 2], [4, 29999, 19995]]}]
+    for b in big:
+        big_sparse(ctx, b)
+
+
+_ORDERS = [(f, g) for f in EXTS for g in (False, True)]
+_CHAIN_MODES = ("memory", "memmap", "sub", "sub-memmap")
+
+
+def _sessions(ctx, rng, n_obj, n_pair, n_chain):
+    for _ in range(n_obj):
+        order = [list(_ORDERS[i]) for i in rng.permutation(len(_ORDERS))]
+        order += [order[int(rng.integers(0, len(order)))]]      # one path twice within a phase
+        session_same_object(ctx, {"session": "same-object", "seed": int(rng.integers(0, 2 ** 31)),
+                                  "shape": [int(x) for x in rng.choice(np.arange(2, 7), size=3, replace=False)], "order": order})
+    kinds = list(_NAME_PAIRS)
+    for i in range(n_pair):
+        f, g = _ORDERS[int(rng.integers(0, len(_ORDERS)))] if i >= len(_ORDERS) else _ORDERS[i]
+        session_two_files(ctx, {"session": "two-files", "seed": int(rng.integers(0, 2 ** 31)), "fmt": f, "gzip": g,
+                                "names": kinds[i % len(kinds)],
+                                "shape": [int(x) for x in rng.choice(np.arange(2, 7), size=3, replace=False)]})
+    for i in range(n_chain):
+        f1, g1 = _ORDERS[int(rng.integers(0, len(_ORDERS)))]
+        f2, g2 = _ORDERS[int(rng.integers(0, len(_ORDERS)))]
+        session_chain(ctx, {"session": "chain", "seed": int(rng.integers(0, 2 ** 31)), "fmt1": f1, "gzip1": g1, "fmt2": f2, "gzip2": g2,
+                            "mode": _CHAIN_MODES[i % 4], "dtype": str(rng.choice(["float32", "float32", "float64", "int16", "int8", "float16"])),
+                            "shape": [int(x) for x in rng.choice(np.arange(1, 8), size=3, replace=False)]})
 
 
 # ------------------------------------------------------------------------------------------------
 def run(ctx):
     for f in sorted(glob.glob(os.path.join(env.VERIF, "corpus", "C08_*.json"))):
         rec = json.load(open(f))
-        check_case(ctx, rec["case"], boxes=rec.get("boxes", ()), model=True)
+        if rec["case"].get("foreign"):
+            check_foreign(ctx, rec["case"], boxes=rec.get("boxes", []), model=True)
+        else:
+            check_case(ctx, rec["case"], boxes=rec.get("boxes", ()), model=True)
         ctx.count("corpus")
     _obligations(ctx)
     _dispatch(ctx)
@@ -624,6 +1361,7 @@ def run(ctx):
                 for k in range(3):
                     c = gen_case(rng, ctx, fmt=fmt, gz=gz)
                     c["reuse_path"] = f"rewritten_{rep}_{int(gz)}"
+                    c["transport"] = None
                     check_case(ctx, c, boxes=_boxes_random(rng, c["shape"], 3), memmap_boxes=1)
                     ctx.count("same-path-rewritten")
     # random volumes
@@ -635,25 +1373,43 @@ def run(ctx):
         if i % 4 == 1:
             c["regen"] = True
         nb = ctx.budget(8, 14)
-        check_case(ctx, c, boxes=_boxes_random(rng, c["shape"], nb),
+        check_case(ctx, c, boxes=_boxes_random(rng, c["shape"], nb, forms=True),
                    malformed=_boxes_malformed(rng, c["shape"]) if i % 3 == 0 else ())
         if i < 4:
-            ctx.sample({k: c[k] for k in ("shape", "dtype", "layout", "origin", "rate", "fmt", "gzip")})
+            ctx.sample({k: c[k] for k in ("shape", "dtype", "layout", "origin", "rate", "fmt", "gzip", "oform", "rform", "transport")})
+    # MRC files written by mrcfile itself
+    frng = ctx.rng("foreign")
+    for i in range(ctx.budget(150, 1200)):
+        check_foreign(ctx, gen_foreign(frng, ctx), nbox=ctx.budget(5, 10), rng=frng)
+    # sessions, large extents, files beyond 4 GiB
+    _sessions(ctx, ctx.rng("sessions"), ctx.budget(3, 20), ctx.budget(20, 160), ctx.budget(48, 400))
+    _wide_cases(ctx)
+
+
+def _unknown_failure(ctx):
+    return any(f["key"] not in _KNOWN for f in ctx.spec_failures)
 
 
 def search(ctx):
     """Correspondence or an obligation broke without a failed clause: evaluate the clauses alone on a wider stream."""
     rng = ctx.rng("search")
     _fixed_cases(ctx, model=False)
+    if _unknown_failure(ctx):
+        return
     for i in range(ctx.budget(250, 1500)):
         c = gen_case(rng, ctx, wide=True)
         if c["fmt"] in ("mrc", "map") and i % 2 == 0:
             c["ext_header"] = int(rng.choice([4, 80, 128, 1024, 13]))
         c["regen"] = i % 3 == 0
-        boxes = _boxes_all(c["shape"]) if int(np.prod(c["shape"])) <= 30 else _boxes_random(rng, c["shape"], 16)
+        boxes = _boxes_all(c["shape"]) if int(np.prod(c["shape"])) <= 30 else _boxes_random(rng, c["shape"], 16, forms=True)
         check_case(ctx, c, boxes=boxes, model=False, memmap_boxes=4)
-        if any(f["key"] not in ("mrc:subset:nx-gzip-magic", "mrc:origin:allclose0-with-nonzero-start") for f in ctx.spec_failures):
-            break
+        if i % 2 == 0:
+            check_foreign(ctx, gen_foreign(rng, ctx), nbox=12, model=False, rng=rng)
+        if i % 25 == 0:
+            _sessions(ctx, rng, 1, 5, 8)
+        if _unknown_failure(ctx):
+            return
+    _wide_cases(ctx)
 
 
 def replay(ctx, rec):
@@ -661,6 +1417,16 @@ def replay(ctx, rec):
     if not inp or "shape" not in inp:
         print("replay: record carries no concrete input; running the normal check")
         return run(ctx)
-    case = {k: v for k, v in inp.items() if k not in ("box", "memmap")}
-    boxes = [inp["box"]] if inp.get("box") else []
-    check_case(ctx, case, boxes=boxes, model=False, memmap_boxes=1 if inp.get("memmap") else 0)
+    drop = ("box", "memmap", "boxform", "step", "which", "mode_read", "byte_offset", "at")
+    if inp.get("session"):
+        s = {k: v for k, v in inp.items() if k not in ("box", "step", "which")}
+        return {"same-object": session_same_object, "two-files": session_two_files, "chain": session_chain}[inp["session"]](ctx, s)
+    if inp.get("sparse"):
+        return big_sparse(ctx, {k: v for k, v in inp.items() if k not in drop})
+    if inp.get("foreign"):
+        fc = {k: v for k, v in inp.items() if k not in drop}
+        boxes = [{"box": inp["box"], "memmap": bool(inp.get("memmap")), "form": inp.get("boxform", "int")}] if inp.get("box") else []
+        return check_foreign(ctx, fc, model=False, boxes=boxes)
+    case = {k: v for k, v in inp.items() if k not in drop}
+    boxes = [{"box": inp["box"], "memmap": bool(inp.get("memmap")), "form": inp.get("boxform", "int")}] if inp.get("box") else []
+    check_case(ctx, case, boxes=boxes, model=False)
